@@ -56,6 +56,7 @@ def shards(tier):
                 out.append(("evs", mk, 0, 128, "quick"))
         out.append(("order", "pairs", 0, 1))
         out.append(("order", "mapmut", 0, 1))
+        out.append(("order", "first", 0, 1))
         out.append(("order", "threads", 0, 1))
         for p in range(4):
             out.append(("order", "triples_small", p, 4))
@@ -73,6 +74,7 @@ def shards(tier):
                     out.append(("evs", mk, t0, t0 + 16, "full"))
         out.append(("order", "pairs", 0, 1))
         out.append(("order", "mapmut", 0, 1))
+        out.append(("order", "first", 0, 1))
         out.append(("order", "threads", 0, 1))
         for p in range(32):
             out.append(("order", "triples", p, 32))
@@ -156,7 +158,8 @@ def decode_check(res, bits, v, dt, dmap, maptype, mk, from_frame, FF, Command, c
         # documented tolerance: standard opcode under a foreign device type -> unknown
         if bits == 16 and dt != 0 and got[1] == "UnknownGearCommand":
             exp0 = R.decode16(v, 0)
-            if exp[1] == "UnknownGearCommand" or (exp0[1] != "UnknownGearCommand" and (v & 0xFF) < 224):
+            std = (exp0[0], exp0[1]) in R.BY_NAME and R.BY_NAME[(exp0[0], exp0[1])][0] == "GEAR_STD"      # an addressed standard command (not DAPC, not a special command)
+            if exp[1] == "UnknownGearCommand" or (std and (v & 0xFF) < 224):
                 observe(res, "std_opcode_under_foreign_dt_decoded_unknown")
                 return got
         add_violation(res, f"C01:wrong-decode:{exp[0]}.{exp[1]}",
@@ -200,6 +203,10 @@ def order_alphabet():
     A.append((25, 0x1FFFFFF, 0, "nomap"))
     A.append((20, 0, 6, "nomap"))
     A.append((17, 0x10000, 0, "nomap"))
+    # the public address / instance codec called directly on a frame (a bus monitor asking for the destination of what it sees),
+    # event frames included - placed LAST so that the baselines of the decodes above are taken before any of these calls
+    for bits, v in ((24, 0x000400), (24, 0x01FE30), (16, 0x0100), (24, 0x808400), (24, 0x81FE48), (24, 0x008002), (16, 0xFF20), (8, 0x55)):
+        A.append((bits, v, "ADDR", "nomap"))
     return A
 
 
@@ -213,6 +220,13 @@ def _run_order(res, mode, part, parts):
     def dec(a):
         bits, v, dt, mk = a
         dmap, _ = maps[mk]
+        if dt == "ADDR":
+            from dali import address as AD_
+            try:
+                x, y = AD_.from_frame(FF(bits, v)), AD_.instance_from_frame(FF(bits, v))
+                return ("ADDR", type(x).__name__, str(x), type(y).__name__, str(y))
+            except Exception as e:
+                return ("EXC", repr(e))
         try:
             r = from_frame(FF(bits, v), devicetype=dt, dev_inst_map=dmap)
         except Exception as e:          # judged by the enumeration shards; here only order matters
@@ -267,6 +281,49 @@ def _run_order(res, mode, part, parts):
             if m.mapping != ref.mapping:
                 add_violation(res, "C01:map-mutated", f"decoding mutated the instance map {mk}", {"order": [], "map": mk})
     sample(res, {"order_mode": mode, "alphabet_size": len(B), "example": [list(B[0]), list(B[-1])]})
+
+
+def _run_first(res):
+    """Every operation of the alphabet as the FIRST thing a process does with the library (fresh forked child each), followed
+    by all decodes: they must equal the decodes of a child that starts with them.  (The pair / triple shards take their
+    baselines first, so whatever the library remembers from a first call is already in place there.)"""
+    from dali.command import from_frame
+    from dali.frame import ForwardFrame as FF
+    from dalimc.core.preempt import _in_fork
+    A = order_alphabet()
+    decs = [a for a in A if a[2] != "ADDR"]
+
+    def dec(a, maps):
+        bits, v, dt, mk = a
+        if dt == "ADDR":
+            from dali import address as AD_
+            x, y = AD_.from_frame(FF(bits, v)), AD_.instance_from_frame(FF(bits, v))
+            return ("ADDR", type(x).__name__, str(x), type(y).__name__, str(y))
+        try:
+            r = from_frame(FF(bits, v), devicetype=dt, dev_inst_map=maps[mk][0])
+            return (type(r).__module__, type(r).__name__, len(r.frame), r.frame.as_integer, str(r))
+        except Exception as e:
+            return ("EXC", repr(e))
+
+    def child(first):
+        maps = {mk: make_map(mk) for mk in set(a[3] for a in A)}
+        if first is not None:
+            dec(first, maps)
+        return [dec(a, maps) for a in decs]
+    want = _in_fork(lambda: child(None))
+    if not want:
+        raise RuntimeError("HARNESS: reference child produced nothing")
+    firsts = [a for a in A if a[2] == "ADDR"] + [a for a in A if a[0] == 24 and a[2] != "ADDR" and not (a[1] >> 16) & 1][:8] + A[-12:-8] + A[:3]
+    for first in firsts:
+        got = _in_fork(lambda: child(first))
+        res["evaluations"] += 1
+        res["transitions"] += len(decs)
+        if got != want:
+            bad = [(a, g, w) for a, g, w in zip(decs, got or [], want or []) if g != w][:3]
+            add_violation(res, "C01:order-dependence:first-call", f"a process whose first library call is {first}: later decodes differ from a process without that call: "
+                          f"{bad if bad else (got, want)}"[:900], {"order": [], "first": list(map(str, first))})
+        res["distinct"].add(("first", str(first[2])))
+    sample(res, {"order_mode": "every address-codec call / event decode as the first call of a fresh process", "firsts": len(firsts)})
 
 
 def _run_mapmut(res):
@@ -451,6 +508,8 @@ def run_shard(shard):
         sample(res, {"order_mode": "two threads, one preemption at every library line of the first decode"})
     elif kind == "order" and shard[1] == "mapmut":
         _run_mapmut(res)
+    elif kind == "order" and shard[1] == "first":
+        _run_first(res)
     elif kind == "order":
         _run_order(res, shard[1], shard[2], shard[3])
     if registries() != before:
@@ -467,6 +526,8 @@ def replay(case):
         return run_shard(("order", "threads", 0, 1))["violations"]
     if "mapmut" in case:
         return run_shard(("order", "mapmut", 0, 1))["violations"]
+    if "first" in case:
+        return run_shard(("order", "first", 0, 1))["violations"]
     if "order" in case:
         if not case["order"]:
             return run_shard(("order", "pairs", 0, 1))["violations"]
@@ -475,6 +536,10 @@ def replay(case):
 
         def dec(a):
             bits, v, dt, mk = a
+            if dt == "ADDR":
+                from dali import address as AD_
+                x, y = AD_.from_frame(FF(bits, v)), AD_.instance_from_frame(FF(bits, v))
+                return ("ADDR", type(x).__name__, str(x), type(y).__name__, str(y))
             try:
                 r = from_frame(FF(bits, v), devicetype=dt, dev_inst_map=maps[mk][0])
                 return (type(r).__name__, len(r.frame), r.frame.as_integer, str(r))
